@@ -240,6 +240,8 @@ struct Rw<'s> {
     scan_only: bool,
     /// (body start, body end, label) of every match / select arm, in visiting order
     arms: Vec<(usize, usize, String)>,
+    /// > 0 while visiting the arms of a `select!` (the root of the R16 case split)
+    in_select: usize,
 }
 
 impl<'s> Rw<'s> {
@@ -272,6 +274,11 @@ impl<'s> Rw<'s> {
     /// R16 (case split): register a match / select arm; in a copy where it is not the live arm its
     /// body is prefixed with a call to the prelude function `arm_verified_in_another_copy()`.
     fn register_arm(&mut self, body: Span, label: String) {
+        // only the arms of a `select!` and of matches nested inside them take part in the split:
+        // they are mutually exclusive; a match that runs *before* the select! is sequential to it
+        if self.in_select == 0 {
+            return;
+        }
         let (a, b) = br(body);
         let idx = self.arms.len();
         self.arms.push((a, b, label.clone()));
@@ -362,7 +369,9 @@ impl<'s> Rw<'s> {
         };
         let head = format!("{{\n{}\nlet __ev = {};\n{}\nmatch __ev {{", sel_pre.trim_end(), oracle, sel_post.trim_end());
         self.edit(ma, open_end, &head, "R3", &format!("select! #{} -> match on oracle at {}", k, self.loc(whole)));
-        self.edit(close_a, close_b, "} }", "R3", "select! close");
+        // variants of the event enum that this select! has no arm for must be proved impossible
+        // from the oracle's contract (`arm_not_in_select` requires false)
+        self.edit(close_a, close_b, "#[allow(unreachable_patterns)] _ => { arm_not_in_select(); }\n} }", "R3", "select! close");
         for (i, arm) in body.arms.iter().enumerate() {
             let want = &sel.arms[i];
             let have = squash(self.text(arm.fut.span()));
@@ -385,8 +394,10 @@ impl<'s> Rw<'s> {
             let pat_txt = self.text(arm.pat.span()).to_string();
             let newpat = format!("{}::{}({}) =>", sel.enum_name, want.variant, pat_txt);
             self.edit(pa, fb, &newpat, "R3", &format!("arm {} `{}`", want.variant, want.fut));
+            self.in_select += 1;
             self.register_arm(arm.body.span(), format!("select arm {} ({}:{})", want.variant, self.src.rel, arm.body.span().start().line));
             self.visit_expr(&arm.body);
+            self.in_select -= 1;
             // an expression arm body without trailing comma is legal in select! only for the last arm
             let needs_comma = !matches!(arm.body, syn::Expr::Block(_)) && arm.comma.is_none();
             if needs_comma {
@@ -863,6 +874,7 @@ fn compute_threaded(unit: &Unit, srcs: &HashMap<String, SrcFile>) -> R<BTreeSet<
             self_as: None,
             scan_only: true,
             arms: vec![],
+            in_select: 0,
         };
         match block {
             Body::Block(b) => rw.visit_block(b),
@@ -989,6 +1001,7 @@ fn emit_fn(unit: &Unit, src: &SrcFile, f: &FnSpec, threaded: &BTreeSet<String>) 
         self_as: f.self_as.clone(),
         scan_only: false,
         arms: vec![],
+        in_select: 0,
     };
 
     let name = f.out_name();
@@ -1246,6 +1259,7 @@ fn emit_item(unit: &Unit, src: &SrcFile, it: &ItemSpec) -> R<Emitted> {
         self_as: None,
         scan_only: false,
         arms: vec![],
+        in_select: 0,
     };
     let (attrs, ident): (&Vec<syn::Attribute>, &syn::Ident) = match item {
         syn::Item::Struct(s) => (&s.attrs, &s.ident),
@@ -1426,6 +1440,9 @@ fn run() -> R<()> {
                 let mut outs: Vec<(Emitted, String, String, &str, String, Option<String>)> = vec![];
                 match p {
                     Part::Fn(f) if f.split_arms => {
+                        if f.selects.len() != 1 {
+                            refuse!("//@split-arms on `{}` needs exactly one select! (the split is only sound over mutually exclusive arms)", f.path);
+                        }
                         let probe = emit_fn(&unit, &srcs[&f.file], f, &threaded)?;
                         let arms = probe.arms.clone();
                         let leaves: Vec<usize> = (0..arms.len())
